@@ -484,6 +484,57 @@ def Obj.assignDocOld (o : Obj) : Obj := o
 
 def reportAfterDocAssignmentOld (o : Obj) (sec : Sec) (off : Int) : Line := report o.assignDocOld sec off
 
+/-! ### docutils counts lines with `str.splitlines()`
+
+`restructuredtext.parse_docstring` hands the cleaned docstring to docutils, whose
+`statemachine.string2lines` splits it with `str.splitlines()` (after turning `\v` and `\f` into
+spaces).  Besides `'\n'` that breaks lines at U+001C, U+001D, U+001E, U+0085, U+2028, U+2029 —
+characters the Python tokenizer, `inspect.cleandoc` and `extract_docstring_linenum` do not treat as
+line ends.  Every docutils line number after such a character is one higher than the `'\n'` count. -/
+
+def isExtraBreak (c : Char) : Bool :=
+  let n := c.toNat
+  (0x1C ≤ n && n ≤ 0x1E) || n == 0x85 || n == 0x2028 || n == 0x2029
+
+/-- extra line breaks docutils sees before cleaned line `i` -/
+def extraBreaksBefore (doc : List Char) (i : Nat) : Nat :=
+  (((cleandocLines doc).take i).map fun l => (l.filter isExtraBreak).length).sum
+
+def noExtraBreaks (doc : List Char) : Bool := !(doc.any isExtraBreak)
+
+def shiftLine (l : Line) (k : Int) : Line :=
+  match l with
+  | .num n => .num (n + k)
+  | .unknown => .unknown
+
+/-- line printed for a construct, with docutils' line structure (epytext splits on `'\n'` only) -/
+def reportedLineS (fmt : Fmt) (strLineno : Nat) (doc : List Char) (linenumber : Int) (isModule : Bool)
+    (c : Construct) : Line :=
+  shiftLine (reportedLine fmt strLineno doc linenumber isModule c)
+    (if fmt = .epytext then 0 else (extraBreaksBefore doc (c.raw - dropped doc) : Nat))
+
+/-! ### pydoctor's own reST directives `versionadded` / `versionchanged` / `deprecated`
+
+`VersionChange.run` builds the paragraph for the text after the version number without a line;
+`node.append(para)` lets docutils stamp it with `document.current_line`, the line at which the state
+machine stands after it consumed the directive block: the line after the block (0-based `i + span + 1`
+for a directive on line `i` whose block extends `span` lines further), or the last line of the text
+when the block ends it.  The inline wrapper copies that line and `get_lineno` starts from it. -/
+
+def versionArgXrefOffset (i span n j : Int) : Int :=
+  getLineno none [⟨some (min (i + span + 1) (n - 1) + 1), some j⟩]
+
+/-! ### reST section titles
+
+docutils gives a `title` node the line of its underline; `get_lineno` takes it as the title's first
+line.  For objects with a page of their own (modules, classes) `format_toc` renders the table of
+contents built from copies of the titles (no ancestor with a line) with a linker that still reports:
+the same name is reported a second time with offset 0. -/
+
+def sectionTitleXrefOffset (base i j : Int) : Int := getLineno none [⟨some (i + 1 + base), some j⟩]
+
+def tocXrefOffset : Int := getLineno none [⟨none, none⟩, ⟨none, none⟩]
+
 /-! ### objects moved by a re-export
 
 `Documentable.description` (the file name in front of every warning) is `str(self.source_path)`;
